@@ -23,7 +23,7 @@ LEAN = dict(
     extra_modules=["LeaspyVerif.Model.Dag"],
     theorems=["order_topological", "order_perm_nodes", "children_exact", "ancestors_exact",
               "children_in_order", "ancestors_in_order", "accepts_iff", "refused_input_iff", "refused_value_iff",
-              "loop_terminates"],
+              "loop_terminates", "deterministic"],
     trusted_extra=["python string ordering of node names = rank used by the model (names are ranked by the harness with python's sorted())"],
     assumptions=["direct ancestors are sets (frozenset in the code): the harness sends de-duplicated ancestor lists"],
 )
